@@ -4,11 +4,12 @@ Every line is fed unchanged to BOTH programs (harness op of harness/src/manual_c
 lean/RvModel/Hand/DispatchC13B.lean):   <op> - <args…> <words as L<n> w…>   answers: index | L<n> indices | f64 | PANIC.
 
     cases(seed, n)                  -> list of lines (n random cases per op + scripted extreme words / weight vectors)
-    predict_ln_pflips(line, fused)  -> the answer of `ln_pflips` computed here with (fused=True) or without (False) a fused
-                                       `mul_add` in `logsumexp`: the Float model uses `x*a+b` (Num.lean `mulAdd`), the Rust code
-                                       the fused instruction; the ONLY disagreements observed (7 in 8 500 `ln_pflips` cases, all with
-                                       `normed = F` and the variate within 2^-52 of the last cumulative weight) are exactly those
-                                       where the two predictions differ (rust = fused, model = unfused).
+    predict_ln_pflips(line, fused)  -> the answer of `ln_pflips` (current code: `r = Open01 * total`, `total = cws.last()`, bisection
+                                       test `cws[mid] <= r`) computed here with (fused=True) or without (False) a fused `mul_add` in
+                                       `logsumexp`: the Float model uses `x*a+b` (Num.lean `mulAdd`), the Rust code the fused
+                                       instruction, so `z` may differ by one ulp and with it every cumulative weight.  The rare
+                                       disagreements of `ln_pflips` (normed = F only) are exactly the cases where the two
+                                       predictions differ (rust = fused, model = unfused).
 Standalone:  python3 props/cases_c13b.py <seed> <n>  > cases.txt
 """
 import random, struct, math, sys
@@ -153,6 +154,8 @@ def cases(seed=20260930, N=2200):
         for lw in ([0.0], [-math.inf, 0.0], [0.0, -math.inf], [-math.inf] * 9 + [0.0], [-math.inf] + [0.0] * 9, [math.log(0.5)] * 2,
                    [-math.inf] * 3, [-math.inf] * 12, [1e300, 0.0], [-1e300, -1e300]):
             for nm in "TF":
+                if nm == "T" and lw[0] == 1e300:
+                    continue        # `normed = true` with exp(1e300) = inf is not a valid call (total = inf, r = inf: panics)
                 out.append("ln_pflips - %s %s L1 %d" % (fl(lw), nm, w))
     out.append("ln_pflips - L0 F L1 5")
     out.append("ln_pflips - L0 F L0")
@@ -259,16 +262,24 @@ def catflip(c, r):
     for i,x in enumerate(c):
         if x > r: return i
     return None
+def _exp(x):
+    try:
+        return math.exp(x)
+    except OverflowError:
+        return math.inf
+
+
 def predict_ln_pflips(line, fused):
     t = line.split(); n = int(t[2][1:]); xs = [fb(x) for x in t[3:3+n]]; normed = t[3+n]=="T"
     k = int(t[4+n][1:]); ws = [int(x) for x in t[5+n:5+n+k]]
     z = 0.0 if normed else lse(xs, fused)
     s = 0.0; c=[]
     for x in xs:
-        s += math.exp(x - z); c.append(s)
+        s += _exp(x - z); c.append(s)
+    total = c[-1] if c else 1.0          # func.rs: `cws.last().copied().unwrap_or(1.0)`
     out=[]
     for w in ws:
-        i = catflip(c, open01(w))
+        i = catflip(c, open01(w) * total)   # func.rs: `r = rng.sample(Open01) * total`
         if i is None: return "PANIC"
         out.append(i)
     return "L%d %s" % (len(out), " ".join(map(str,out))) if out else "L0"
